@@ -3,7 +3,7 @@ C17 - the storage format of CID and data does not change the verdict.
 """
 import os
 
-from ..absint import AbsRaise, Chooser, ClassRef, Interp, Obj, Opaque, Undecided, exc_name
+from ..absint import AbsIter, AbsRaise, Chooser, ClassRef, Interp, Obj, Opaque, Undecided, exc_name
 from ..tablekit import decide, stub, where_of
 from ..world import World
 
@@ -69,23 +69,26 @@ def rule_auto_rows(ctx):
     decide(ctx, "O17.1", "auto_rows(suffix dispatch)", "cutplace.rowio.auto_rows", cell, min_cells=9)
 
 
-def rule_raw_rows(ctx):
+def raw_rows_dispatch_table(ctx, rule, valid_formats=None):
+    """Reader._raw_rows hands the source to the reader of the declared format with the settings of the data format and
+    passes every row on exactly as delivered (used by C04, C13, C16 and C17)."""
     model = ctx.model
-    ctx.res.minimum("O17.2", 2)
-    valid_formats = Interp(model, Chooser()).global_lookup(model.module("cutplace.data"), "_VALID_FORMATS")
-    if sorted(valid_formats) != ["delimited", "excel", "fixed", "ods"]:
-        ctx.res.fail("O17.2", "valid formats", "data._VALID_FORMATS:O17.2:set", "cutplace/data.py", "valid formats fold to %r" % (valid_formats,))
-        return
+    if valid_formats is None:
+        valid_formats = Interp(model, Chooser()).global_lookup(model.module("cutplace.data"), "_VALID_FORMATS")
 
     def cell(ch):
         format_name = ch.choose("format", list(valid_formats))
         calls = []
+        # rows as a reader delivers them: also with empty trailing cells, too few and too many cells
+        cell_a, cell_b = Opaque("str", True, ["<a>"]), Opaque("str", True, ["<b>"])
+        delivered = [[cell_a, "", ""], [], [cell_b]]
+        line_delimiter = ch.choose("line delimiter", ["\r", None]) if format_name == "fixed" else "\r"
 
         def reader_stub(name):
             @stub
             def handler(interp, args, kwargs):
                 calls.append((name, list(args) + sorted(kwargs.items())))
-                return Opaque("rows")
+                return AbsIter(lambda index: delivered[index] if index < len(delivered) else AbsIter.STOP, "rows of " + name)
 
             return handler
 
@@ -98,27 +101,48 @@ def rule_raw_rows(ctx):
         stubs["cutplace.interface.field_names_and_lengths"] = lengths_stub
         interp = Interp(model, ch, stubs=stubs)
         world = World(model, interp, ch)
-        extra = {"_sheet": 3} if format_name in ("excel", "ods") else {"_line_delimiter": "\r", "_encoding": "latin-1"}
+        extra = {"_sheet": 3} if format_name in ("excel", "ods") else {"_line_delimiter": line_delimiter, "_encoding": "latin-1"}
         data_format = world.data_format(format_name, **extra)
         cid = world.cid([world.recording_field(0)], [], data_format)
         stream = world.stream()
-        reader = Obj(model.cls("cutplace.validio.Reader"), {"_cid": cid, "_source_data_stream_or_path": stream})
+        key = format_name if format_name != "fixed" else "fixed, line delimiter %r" % (line_delimiter,)
         try:
-            interp.call_function(model.func("cutplace.validio.Reader._raw_rows"), [reader], {}, None)
+            reader = interp.instantiate(ClassRef(model.cls("cutplace.validio.Reader")), [cid, stream], {})
+            result = interp.call_function(model.func("cutplace.validio.Reader._raw_rows"), [reader], {}, None)
+            rows = list(interp.iterate(result))
         except AbsRaise as raised:
-            return (format_name, "raise " + exc_name(raised.value), "one reader")
+            return (key, "raise " + exc_name(raised.value), "one reader")
         expected = {
             "excel": ("excel_rows", [stream, 3]),
             "ods": ("ods_rows", [stream, 3]),
             "delimited": ("delimited_rows", [stream, data_format]),
-            "fixed": ("fixed_rows", [stream, "latin-1", "FIELD-LENGTHS", "\r"]),
+            "fixed": ("fixed_rows", [stream, "latin-1", "FIELD-LENGTHS", line_delimiter]),
         }[format_name]
         actual = calls[0] if len(calls) == 1 else calls
         same = len(calls) == 1 and calls[0][0] == expected[0] and len(calls[0][1]) == len(expected[1]) and all(
             (a is e) or (not isinstance(e, Obj) and a == e) for a, e in zip(calls[0][1], expected[1]))
-        return (format_name, "ok" if same else repr(actual), "ok")
+        if not same:
+            return (key, "reader called as " + repr(actual), "reader called with the settings of the data format")
+        def same_row(a, b):
+            return isinstance(a, (list, tuple)) and len(a) == len(b) and all(x is y or (isinstance(y, str) and isinstance(x, str) and x == y) for x, y in zip(a, b))
 
-    decide(ctx, "O17.2", "Reader._raw_rows(format dispatch)", "cutplace.validio.Reader._raw_rows", cell, min_cells=4)
+        reference = [[cell_a, "", ""], [], [cell_b]]
+        if len(rows) != 3 or not all(same_row(a, b) for a, b in zip(rows, reference)):
+            return (key, "rows passed on: %r" % (rows,), "every row exactly as the reader delivered it")
+        return (key, "ok", "ok")
+
+    decide(ctx, rule, "Reader._raw_rows(format dispatch)", "cutplace.validio.Reader._raw_rows", cell, min_cells=5)
+
+
+def rule_raw_rows(ctx):
+    model = ctx.model
+    ctx.res.minimum("O17.2", 2)
+    valid_formats = Interp(model, Chooser()).global_lookup(model.module("cutplace.data"), "_VALID_FORMATS")
+    if sorted(valid_formats) != ["delimited", "excel", "fixed", "ods"]:
+        ctx.res.fail("O17.2", "valid formats", "data._VALID_FORMATS:O17.2:set", "cutplace/data.py", "valid formats fold to %r" % (valid_formats,))
+        return
+
+    raw_rows_dispatch_table(ctx, "O17.2", valid_formats)
 
     def writer_cell(ch):
         format_name = ch.choose("format", ["delimited", "fixed", "excel", "ods"])
@@ -153,50 +177,82 @@ def rule_raw_rows(ctx):
     decide(ctx, "O17.2", "Writer.__init__(format dispatch)", "cutplace.validio.Writer.__init__", writer_cell, min_cells=4)
 
 
+def _field_construction(model, ch, field_type, format_name):
+    @stub
+    def range_stub(interp, args, kwargs):
+        return Obj(model.cls("cutplace.ranges.Range"), {"_items": None, "_lower_limit": None, "_upper_limit": None, "_description": None},
+                   label="range")
+
+    @stub
+    def decimal_range_stub(interp, args, kwargs):
+        return Obj(model.cls("cutplace.ranges.DecimalRange"), {"_items": None, "_precision": 2, "_scale": 5, "_lower_limit": None,
+                                                              "_upper_limit": None}, label="decimal range")
+
+    @stub
+    def tokens_stub(interp, args, kwargs):
+        import token as _token
+
+        sequence = [(_token.NAME, "x", (1, 0), (1, 1), "x"), (_token.ENDMARKER, "", (1, 1), (1, 1), "")]
+        return AbsIter(lambda index: sequence[index] if index < len(sequence) else AbsIter.STOP, "tokens")
+
+    stubs = {"cutplace.ranges.Range": range_stub, "cutplace.ranges.DecimalRange": decimal_range_stub,
+             "cutplace._tools.tokenize_without_space": tokens_stub}
+    externals = {"fnmatch.translate": lambda interp, args, kwargs: "x", "codecs.lookup": lambda interp, args, kwargs: Opaque("codec")}
+    interp = Interp(model, ch, stubs=stubs, externals=externals)
+    data_format = interp.instantiate(ClassRef(model.cls("cutplace.data.DataFormat")), [format_name], {})
+    field_class = model.cls("cutplace.fields.%sFieldFormat" % field_type)
+    rule = {"Choice": "x", "Constant": "x", "DateTime": "DD.MM.YYYY", "RegEx": "x", "Pattern": "x"}.get(field_type, "")
+    try:
+        field = interp.instantiate(ClassRef(field_class), ["f0", False, "", rule, data_format], {})
+        return "constructed", field
+    except AbsRaise as raised:
+        outcome = "raise " + exc_name(raised.value)
+        if exc_name(raised.value) == "AttributeError":
+            outcome += " (%s)" % (raised.value.attrs.get("args") or ("?",))[0]
+        return outcome, None
+
+
+def _summary(value):
+    if isinstance(value, Obj):
+        return "<%s>" % (value.cls_name.rsplit(".", 1)[-1])
+    if isinstance(value, (list, tuple)):
+        return [_summary(item) for item in value]
+    if type(value).__name__ == "ReObj":
+        return "re(%r, %r)" % (value.pattern, value.flags)
+    if isinstance(value, dict):
+        return sorted((repr(key), _summary(item)) for key, item in value.items())
+    return repr(value)
+
+
 def rule_attribute_availability(ctx):
     model = ctx.model
-    ctx.res.minimum("O17.3", 1)
+    ctx.res.minimum("O17.3", 2)
 
     def cell(ch):
         field_type = ch.choose("type", FIELD_TYPES)
         format_name = ch.choose("format", ["delimited", "fixed", "excel", "ods"])
-
-        @stub
-        def range_stub(interp, args, kwargs):
-            return Obj(model.cls("cutplace.ranges.Range"), {"_items": None, "_lower_limit": None, "_upper_limit": None, "_description": None},
-                       label="range")
-
-        @stub
-        def decimal_range_stub(interp, args, kwargs):
-            return Obj(model.cls("cutplace.ranges.DecimalRange"), {"_items": None, "_precision": 2, "_scale": 5, "_lower_limit": None,
-                                                                  "_upper_limit": None}, label="decimal range")
-
-        @stub
-        def tokens_stub(interp, args, kwargs):
-            import token as _token
-
-            from ..absint import AbsIter
-
-            sequence = [(_token.NAME, "x", (1, 0), (1, 1), "x"), (_token.ENDMARKER, "", (1, 1), (1, 1), "")]
-            return AbsIter(lambda index: sequence[index] if index < len(sequence) else AbsIter.STOP, "tokens")
-
-        stubs = {"cutplace.ranges.Range": range_stub, "cutplace.ranges.DecimalRange": decimal_range_stub,
-                 "cutplace._tools.tokenize_without_space": tokens_stub}
-        externals = {"fnmatch.translate": lambda interp, args, kwargs: "x", "codecs.lookup": lambda interp, args, kwargs: Opaque("codec")}
-        interp = Interp(model, ch, stubs=stubs, externals=externals)
-        data_format = interp.instantiate(ClassRef(model.cls("cutplace.data.DataFormat")), [format_name], {})
-        field_class = model.cls("cutplace.fields.%sFieldFormat" % field_type)
-        rule = {"Choice": "x", "Constant": "x", "DateTime": "DD.MM.YYYY", "RegEx": "x", "Pattern": "x"}.get(field_type, "")
-        try:
-            interp.instantiate(ClassRef(field_class), ["f0", False, "", rule, data_format], {})
-            outcome = "constructed"
-        except AbsRaise as raised:
-            outcome = "raise " + exc_name(raised.value)
-            if exc_name(raised.value) == "AttributeError":
-                outcome += " (%s)" % (raised.value.attrs.get("args") or ("?",))[0]
+        outcome, _ = _field_construction(model, ch, field_type, format_name)
         return ("%s under format %s" % (field_type, format_name), outcome, "constructed")
 
     decide(ctx, "O17.3", "field construction under every format", "cutplace.fields.AbstractFieldFormat.__init__", cell, min_cells=32)
+
+    def state_cell(ch):
+        # with the default separators a field is the same validator whatever the Format property says: what the
+        # constructor stores (apart from the reference to the data format itself) must not depend on the format
+        field_type = ch.choose("type", FIELD_TYPES)
+        states = {}
+        for format_name in ("delimited", "fixed", "excel", "ods"):
+            outcome, field = _field_construction(model, ch, field_type, format_name)
+            if field is None:
+                return (field_type, "%s under %s" % (outcome, format_name), "same state")
+            states[format_name] = {name: _summary(value) for name, value in field.attrs.items() if name not in ("_data_format", "data_format")}
+        reference = states["delimited"]
+        differences = sorted("%s: %s under %s, %s under delimited" % (name, other.get(name), format_name, reference.get(name))
+                             for format_name, other in states.items() for name in set(other) | set(reference)
+                             if other.get(name) != reference.get(name))
+        return (field_type, "; ".join(differences) if differences else "same state", "same state")
+
+    decide(ctx, "O17.3", "fields store the same state under every format", "cutplace.fields.AbstractFieldFormat.__init__", state_cell, min_cells=8)
 
 
 def rule_format_independent_hooks(ctx):
@@ -265,4 +321,11 @@ def rule_format_independent_hooks(ctx):
     decide(ctx, "O17.4", "DateTime verdict is independent of the format", "cutplace.fields.DateTimeFieldFormat.validated_value", cell, min_cells=32)
 
 
-RULES = [rule_auto_rows, rule_raw_rows, rule_attribute_availability, rule_format_independent_hooks]
+def rule_ods_cell_texts(ctx):
+    """O17.5: a cell means the same text whether it is stored as ODS or as delimited text: the ODS reader reconstructs the logical cell text (C15's table)."""
+    from .c15 import rule_cell_texts
+
+    rule_cell_texts(ctx, "O17.5")
+
+
+RULES = [rule_auto_rows, rule_raw_rows, rule_attribute_availability, rule_format_independent_hooks, rule_ods_cell_texts]
